@@ -1621,12 +1621,9 @@ theorem okCount_mono (k : Option Nat) {m n : Nat} (hmn : m ≤ n) (h : okCount k
   cases k with
   | none => rfl
   | some k =>
-    cases k with
-    | zero => rfl
-    | succ k =>
-      have : n ≤ k + 1 := by simpa [okCount] using h
-      have : m ≤ k + 1 := Nat.le_trans hmn this
-      simpa [okCount] using this
+    have : n ≤ k := by simpa [okCount] using h
+    have : m ≤ k := Nat.le_trans hmn this
+    simpa [okCount] using this
 
 theorem init_valid' (L : Lang) : Valid L {} := by
   refine ⟨?_, ?_, ?_, ?_, ?_⟩ <;> intro a ha <;> exact absurd ha List.not_mem_nil
